@@ -32,7 +32,7 @@ def main():
     m = re.findall(r"(\S*zz_\w*_test\.go)", how)
     dest = m[-1].strip("`'\"(),")
     dest = re.sub(r"^/tmp/seed\d*-C\d+/", "", dest)
-    runname = re.search(r"-run\s+(\S+)", how).group(1)
+    runname = re.search(r"-run\s+(\S+)", how).group(1).strip("'\"`")
     tags = re.search(r"-tags\s+([\w,]+)", how)
     race = ["-race"] if re.search(r"(^|\s)-race(\s|$)", how) and "[-race]" not in how else []
     pkg = "./" + os.path.dirname(dest) if os.path.dirname(dest) else "."
